@@ -184,7 +184,7 @@ func (r *runner) clientConc(ci int, ops []Op) {
 			if err != nil {
 				h.failed = true
 				h.closed = err == leveldb.ErrClosed
-				if !h.closed {
+				if !h.closed && !r.faulty {
 					r.viol("write-err", "write-err:"+errClass(err), fmt.Sprintf("client %d: %s returned %v in a fault-free run", ci, op.K, err))
 				}
 			}
@@ -204,7 +204,10 @@ func (r *runner) clientConc(ci int, ops []Op) {
 			case err == leveldb.ErrClosed:
 				h.failed = true
 			case err != nil:
-				r.viol("get", "get:error", fmt.Sprintf("client %d: Get returned %v", ci, err))
+				h.failed = true
+				if !r.faulty {
+					r.viol("get", "get:error", fmt.Sprintf("client %d: Get returned %v", ci, err))
+				}
 			default:
 				id, ok := r.valID(v)
 				if !ok {
@@ -237,7 +240,7 @@ func (r *runner) clientConc(ci int, ops []Op) {
 						r.viol("lin", "lin:invented-value", fmt.Sprintf("client %d: snapshot Get(%q) returned bytes that were never written", ci, k.Key))
 					}
 					h.obs[string(k.Key)] = id
-				} else if err != leveldb.ErrClosed {
+				} else if err != leveldb.ErrClosed && !r.faulty {
 					r.viol("snapget", "snapget:error", fmt.Sprintf("snapshot Get returned %v", err))
 				} else {
 					break
@@ -273,7 +276,7 @@ func (r *runner) clientConc(ci int, ops []Op) {
 			if err == nil {
 				h.obs = obs
 				h.full = true
-			} else if err != leveldb.ErrClosed {
+			} else if err != leveldb.ErrClosed && !r.faulty {
 				r.viol("iter", "iter:error", fmt.Sprintf("iterator returned %v", err))
 			} else {
 				h.failed = true
@@ -494,7 +497,8 @@ var linModel = porcupine.Model{
 // checkLin runs after the simulation (outside the bubble).
 func (r *runner) checkLin() {
 	cs := r.cs
-	if cs == nil || len(r.out.Viol) > 0 {
+	if cs == nil || len(r.out.Viol) > 0 || r.faulty {
+		// under injected faults only the liveness oracles apply (C09)
 		return
 	}
 	groups := r.journalGroups()
@@ -857,6 +861,11 @@ func genConc(prop string, seed uint64, g *gen, thorough bool) *Case {
 	}
 	nc := r.rng(2, 5)
 	total := r.rng(10, 60)
+	if prop == "C09" {
+		nc = r.rng(2, 6)
+		c.Knobs.WriteBuffer = r.pick(512, 1024, 4096, 65536)
+		g.wb = c.Knobs.WriteBuffer
+	}
 	if prop == "C10" {
 		nc = r.rng(2, 6)
 		c.Knobs.NoWriteMerge = r.p(0.1)
@@ -865,7 +874,7 @@ func genConc(prop string, seed uint64, g *gen, thorough bool) *Case {
 		g.wb = c.Knobs.WriteBuffer
 	}
 	closer := -1
-	if prop == "C10" && r.p(0.3) {
+	if (prop == "C10" || prop == "C09") && r.p(0.3) {
 		closer = r.intn(nc)
 	}
 	storm := prop == "C10" && r.p(0.35)
@@ -888,7 +897,7 @@ func genConc(prop string, seed uint64, g *gen, thorough bool) *Case {
 		var ops []Op
 		n := total/nc + r.intn(3)
 		role := r.intn(3) // 0 writer, 1 reader, 2 mixed
-		if prop == "C10" {
+		if prop == "C10" || prop == "C09" {
 			role = 0
 			if r.p(0.2) && !storm {
 				role = 2
@@ -913,7 +922,7 @@ func genConc(prop string, seed uint64, g *gen, thorough bool) *Case {
 				if w.K == "del" {
 					w.Key = g.key()
 				}
-				if prop == "C10" {
+				if prop == "C10" || prop == "C09" {
 					switch {
 					case r.p(0.1):
 						// around the merge limit (128 KiB) so overflow hand-off occurs
